@@ -247,6 +247,12 @@ def gen_specs(tier, seed_):
         if field == 'reference':
             kw['text'] = None
         add('epc', must_refuse=not ok, **kw)
+    # the 331 byte limit is a limit in BYTES of the encoding used: every element within its length limit, payload too long as UTF-8
+    add('epc', must_refuse=True, name='\u5c71' * 36, iban='DE33100205000001194700', amount='1', text='\u5b57' * 140)
+    add('epc', must_refuse=True, name='\u20ac\u0416' * 35, iban='DE33100205000001194700', amount='12.5', text='\u20ac\u0416' * 70)
+    add('epc', name='\u20ac' * 70, iban='DE33100205000001194700', amount='12.5', text='\u20ac' * 60)          # ISO 8859-15: 130 bytes
+    add('epc', must_refuse=True, name='N', iban='DE33100205000001194700', amount='1', text='\U0001f600' * 80)
+    add('epc', name='\u5c71' * 20, iban='DE33100205000001194700', amount='1', text='\u5b57' * 60)       # 3 * 80 + ~60: fits
     # limits must be refused
     base = dict(name='N', iban='DE33100205000001194700', amount='1', text='t')
     for bad in (dict(amount='0'), dict(amount='0.009'), dict(amount='1000000000'), dict(amount='-1'), dict(name=''), dict(name='A' * 71), dict(iban='DE33'),
